@@ -35,6 +35,8 @@ func scenarios(tier string) []c18.Scenario {
 		{Name: "comment-shared || excerpt+prefix", Threads: [][]c18.Call{T(c18.CCommentShared), T(c18.CExcerpt, c18.CPrefix)}},
 		{Name: "comment-shared || snapshot", Threads: [][]c18.Call{T(c18.CCommentShared), T(c18.CSnapshot)}},
 		{Name: "new || query-open", Threads: [][]c18.Call{T(c18.CNew), T(c18.CQueryOpen)}},
+		{Name: "cold: comment-shared || comment-shared", Cold: true, Threads: [][]c18.Call{T(c18.CCommentShared), T(c18.CCommentShared)}},
+		{Name: "cold: comment-shared || snapshot+excerpt", Cold: true, Threads: [][]c18.Call{T(c18.CCommentShared), T(c18.CSnapshot, c18.CExcerpt)}},
 		{Name: "size1: comment-shared || comment-other", Size: 1, Threads: [][]c18.Call{T(c18.CCommentShared), T(c18.CCommentOther)}},
 		{Name: "size1: comment-own || comment-own", Size: 1, Threads: [][]c18.Call{T(c18.CCommentOwn), T(c18.CCommentOwn)}},
 		{Name: "size1: comment-shared || new", Size: 1, Threads: [][]c18.Call{T(c18.CCommentShared), T(c18.CNew)}},
